@@ -15,7 +15,12 @@ def run(tier):
     P = ["p1", "p2", "p3"]
     fam = dict(peers=P, enabled=BASIC,
                cat={"b1": attr("app", "far"), "b2": attr("p1", "p2", prev="p1", copies=5), "b3": attr("p2", "far", prev="p2", copies=1)})
-    plans = []
+    # bundles that arrive with k copies and can be sprayed to two further peers (second transmission after a success / a failure)
+    famk = dict(peers=P, enabled=["Receive", "PeerUp", "SetFail", "RetryTick"],
+                cat={"k4": attr("p1", "far", prev="p1", copies=4), "k7": attr("p1", "far", prev="p1", copies=7)})
+    nsends = lambda h: sum(len(st["exp"]["sends"]) for st in h)
+    plans = [dict(name="received-k", fam=famk, algo="binary_spray", budget=3, steps=5 if quick else 6, cap=260 if quick else None, mc=not quick, prefer=nsends),
+             dict(name="received-k", fam=famk, algo="spray", budget=3, steps=4, cap=80 if quick else None, mc=False, prefer=nsends)]
     for algo in ("spray", "binary_spray"):
         for L in ([1, 2, 4] if quick else [1, 2, 3, 4, 8]):
             plans.append(dict(name="budget", fam=fam, algo=algo, budget=L, steps=4 if quick else 5, sim=(25, 12) if quick else (800, 20),
